@@ -142,10 +142,10 @@ vars == <<inp, ph, out>>
 Init == inp \in Inputs /\ ph = "call" /\ out = [op |-> "none"]
 Next == ph = "call" /\ ph' = "ret" /\ out' = Result(inp) /\ UNCHANGED inp
 Spec == Init /\ [][Next]_vars
-(* only the inputs matter for the replay *)
-(* design-level statement: the algorithm as modelled satisfies every clause of the property -- except the one case  *)
-(* in which it knowingly does not (kept as its own invariant, DesignRejectsEveryMismatch, to show the defect)       *)
-Excused(r) == IF TriggerHolds("FirstAntitargetEmptyOthersNot", r) THEN {"pool_reject_mismatch"} ELSE {}
-DesignOK == ph = "ret" => (Premise(out) /\ \A c \in Clauses(out.op) \ Excused(out) : Holds(c, out))
-DesignRejectsEveryMismatch == ph = "ret" => Holds("pool_reject_mismatch", out)
+(* design-level statement: the algorithm as modelled satisfies every clause of the property *)
+DesignOK == ph = "ret" => (Premise(out) /\ \A c \in Clauses(out.op) : Holds(c, out))
+(* what the unrepaired load_sample_block did with an empty first antitarget file (not checked by default; violated   *)
+(* in mode "mismatch": kind a_empty on the first file by name)                                                       *)
+DesignOldFirstEmpty == (ph = "ret" /\ inp.op = "pooled") =>
+    (CoordMismatch(inp @@ [used |-> <<>>]) => \E b \in RIdx(Blocks(inp)) : BlockErrOld(BlockFiles(inp @@ [used |-> <<>>], Blocks(inp)[b])))
 =============================================================================
